@@ -225,6 +225,20 @@ package period
 //@ requires 0 <= y && y <= 9999 && wk(t) == 3 && dby(y) <= t && t < dby(y + 1)
 //@ ensures klog.isoyear(t - 3) == y && klog.isoweek(t - 3) == ediv(t - dby(y), 7) + 1
 
+// The Thursday reached from the Thursday of 1 July's week by moving (w - that week's number) weeks lies in calendar
+// year y, for every week number w between 1 and the week number of 28 December.
+//@ lemma weekThursday(y int, w int)
+//@ requires 0 <= y && y <= 9999 && 1 <= w && w <= klog.isoweek(dn(y, 12, 28))
+//@ let M = dn(y, 7, 1) - wk(dn(y, 7, 1))
+//@ let D = dn(y, 12, 28) - wk(dn(y, 12, 28))
+//@ let T = M + 7 * (w - klog.isoweek(M))
+//@ use isoYearMid(y)
+//@ use isoOfThursday(y, M + 3)
+//@ use isoOfThursday(y, D + 3)
+//@ ensures wk(T + 3) == 3
+//@ ensures dby(y) <= T + 3 && T + 3 < dby(y + 1)
+//@ ensures klog.isoweek(M) == ediv(M + 3 - dby(y), 7) + 1
+
 // The Mondays of ISO year y: starting from the Monday on or before 1 July and moving by whole weeks, week number w
 // (1 <= w <= the week number of 28 December) is reached at a representable date, which is a Monday of ISO year y.
 //@ lemma weekOfYear(y int, w int)
@@ -235,9 +249,12 @@ package period
 //@ use isoYearMid(y)
 //@ use isoOfThursday(y, M + 3)
 //@ use isoOfThursday(y, D + 3)
+//@ use weekThursday(y, w)
 //@ use isoOfThursday(y, T + 3)
 //@ ensures 0 <= T && T <= 3652424
-//@ ensures klog.isoweek(T) == w && klog.isoyear(T) == y && wk(T) == 0
+//@ ensures wk(T) == 0
+//@ ensures klog.isoyear(T) == y
+//@ ensures klog.isoweek(T) == w
 
 // NewPeriodFromPatternString: the four shapes are disjoint, so at most one constructor accepts; the result is that
 // constructor's period, and a string that none accepts is rejected.
